@@ -158,6 +158,103 @@ def base64_stage(ctx, ths):
     return {"base64_lines": len(l1) + len(l2), "base64_ops": kinds, "base64_roundtrips_on_impl": len(encl), "base64_disagreements": len(i1) + len(i2)}
 
 
+FLAGS_FBS = """namespace FG;
+enum F8:ubyte (bit_flags) { A0, A1, A2 = 6, A3 = 7 }
+enum F16:ushort (bit_flags) { B0, B1, B2 = 8, B3 = 15 }
+enum F32:uint (bit_flags) { C0, C1, C2 = 16, C3 = 31 }
+enum F64:ulong (bit_flags) { D0, D1, D2 = 32, D3 = 63 }
+enum FL:long (bit_flags) { E0, E1, E2 = 40, E3 = 62 }
+table T { a:F8 = A0; b:F16 = B0; c:F32 = C0; d:F64 = D0; e:FL = E0; vd:[F64]; name:string; }
+root_type T;
+"""
+
+FLAGS_C = r'''
+#include <stdio.h>
+#include <stdlib.h>
+#include <string.h>
+#include "fg_builder.h"
+#include "fg_verifier.h"
+#include "fg_json_parser.h"
+#include "fg_json_printer.h"
+static const int P[5][4] = {{0,1,6,7},{0,1,8,15},{0,1,16,31},{0,1,32,63},{0,1,40,62}};
+static char *print(const void *buf, size_t size, int pf, size_t *n, int *err) {
+    flatcc_json_printer_t pc; char *t;
+    flatcc_json_printer_init_dynamic_buffer(&pc, 0); flatcc_json_printer_set_flags(&pc, (flatcc_json_printer_flags_t)pf);
+    FG_T_print_json_as_root(&pc, buf, size, 0); *err = flatcc_json_printer_get_error(&pc);
+    t = flatcc_json_printer_finalize_dynamic_buffer(&pc, n); flatcc_json_printer_clear(&pc); return t;
+}
+int main(void) {
+    flatcc_builder_t b, *B = &b; int s, x, pf, k, j;
+    flatcc_builder_init(B);
+    for (s = 0; s < 16; ++s) for (x = 0; x < 2; ++x) {
+        uint64_t v[5], vd[3]; void *buf; size_t size;
+        for (k = 0; k < 5; ++k) { v[k] = x ? 8 : 0; for (j = 0; j < 4; ++j) if (s & (1 << j)) v[k] |= (uint64_t)1 << P[k][j]; }
+        vd[0] = v[3]; vd[1] = ((uint64_t)1 << 63) | 1; vd[2] = ((uint64_t)1 << 63) | ((uint64_t)1 << 32);
+        flatcc_builder_reset(B);
+        FG_T_start_as_root(B);
+        FG_T_a_force_add(B, (FG_F8_enum_t)v[0]); FG_T_b_force_add(B, (FG_F16_enum_t)v[1]); FG_T_c_force_add(B, (FG_F32_enum_t)v[2]);
+        FG_T_d_force_add(B, (FG_F64_enum_t)v[3]); FG_T_e_force_add(B, (FG_FL_enum_t)v[4]);
+        FG_T_vd_create(B, (const FG_F64_enum_t *)vd, 3);
+        FG_T_name_create_str(B, "n");
+        FG_T_end_as_root(B);
+        buf = flatcc_builder_finalize_aligned_buffer(B, &size);
+        for (pf = 0; pf < 4; ++pf) {
+            size_t n = 0, n2 = 0, size2 = 0, q; int e1 = 0, e2 = 0, rc; char *t = print(buf, size, pf, &n, &e1), *t2 = 0; void *buf2 = 0;
+            flatcc_json_parser_t jc; const char *why = "ok";
+            printf("s=%d x=%d pf=%d ", s, x, pf);
+            if (!t || e1) why = "printer-error";
+            else {
+                flatcc_builder_reset(B); memset(&jc, 0, sizeof jc);
+                rc = FG_T_parse_json_as_root(B, &jc, t, n, flatcc_json_parser_f_force_add, 0);   /* values equal to a default stay present, as built */
+                if (rc) why = "parser-rejects-printer-output";
+                else if (!(buf2 = flatcc_builder_finalize_aligned_buffer(B, &size2))) why = "finalize-failed";
+                else if (FG_T_verify_as_root(buf2, size2)) why = "reparsed-buffer-fails-verification";
+                else {
+                    FG_T_table_t r = FG_T_as_root(buf2);
+                    if ((uint64_t)FG_T_a(r) != v[0] || (uint64_t)FG_T_b(r) != v[1] || (uint64_t)FG_T_c(r) != v[2] || (uint64_t)FG_T_d(r) != v[3] || (uint64_t)FG_T_e(r) != v[4]) why = "scalar-flags-differ";
+                    else if (FG_F64_vec_len(FG_T_vd(r)) != 3 || FG_F64_vec_at(FG_T_vd(r), 0) != vd[0] || FG_F64_vec_at(FG_T_vd(r), 1) != vd[1] || FG_F64_vec_at(FG_T_vd(r), 2) != vd[2]) why = "vector-flags-differ";
+                    else { t2 = print(buf2, size2, pf, &n2, &e2); if (!t2 || e2 || n2 != n || memcmp(t, t2, n)) why = "reprint-differs"; }
+                }
+            }
+            printf("%s text=", why);
+            for (q = 0; t && q < n; ++q) printf("%02x", (unsigned char)t[q]);
+            printf("\n");
+            free(t); free(t2); if (buf2) flatcc_builder_aligned_free(buf2);
+        }
+        flatcc_builder_aligned_free(buf);
+    }
+    flatcc_builder_clear(B);
+    return 0;
+}
+'''
+
+
+def flags_stage(ctx, flatcc, rt):
+    """bit_flags enums of every width (flags at both ends of the type, on both sides of bit 31): every subset of the declared flags, with and without
+    an undeclared bit, as scalar fields and in a vector, under the printer flag sets {strict, unquote, noenum, both}: print -> parse -> verify ->
+    same values -> same text"""
+    d = os.path.join(ctx.work, "flags"); os.makedirs(d, exist_ok=True)
+    open(os.path.join(d, "fg.fbs"), "w").write(FLAGS_FBS)
+    open(os.path.join(d, "prog.c"), "w").write(FLAGS_C)
+    rc, out, err = sh([flatcc, "-a", "--json", "-o", d, os.path.join(d, "fg.fbs")])
+    if rc != 0:
+        return {}, [("flatcc rejects the flags schema: " + (out + err)[-400:], dict(schema_fbs=FLAGS_FBS))]
+    try:
+        exe = build_harness(ctx, "flags_prog", [os.path.join(d, "prog.c")], rt, incs=[d], flags=["-O1", "-g", "-w", "-fsanitize=address", "-fno-omit-frame-pointer"])
+    except BuildError as e:
+        return {}, [("generated code for the flags schema does not compile: " + str(e)[-800:], dict(schema_fbs=FLAGS_FBS))]
+    rc, out, err = sh([exe], timeout=120, env=ASAN_ENV)
+    lines = [l for l in out.split("\n") if l.startswith("s=")]
+    bad = []
+    if rc != 0 or len(lines) != 128: bad.append(("flags scenario crashed / incomplete (%d of 128 lines): %s" % (len(lines), err[-600:]), dict(schema_fbs=FLAGS_FBS)))
+    for l in lines:
+        t = l.split(" ")
+        if t[3] != "ok":
+            text = bytes.fromhex(t[4][5:][:len(t[4][5:]) // 2 * 2]).decode("latin1") if len(t) > 4 else ""
+            bad.append(("bit_flags round trip (subset %s, undeclared bit %s, printer flags %s): %s" % (t[0][2:], t[1][2:], t[2][3:], t[3]), dict(schema_fbs=FLAGS_FBS, text=text[:600], line=l[:200])))
+    return {"bit_flags_round_trips": len(lines)}, bad
+
+
 def run(ctx, mutate=None, judge_extra=None):
     ths = proof_stage(ctx)
     if ths is None:
@@ -171,7 +268,8 @@ def run(ctx, mutate=None, judge_extra=None):
     # parser's runtime error instead of the builder's `check(0, "table field already set")` abort
     ndebug = ["-DNDEBUG"] if mutate else []
     rt = build_runtime_objs(ctx, flags=["-O1", "-g", "-fsanitize=address", "-fno-omit-frame-pointer"] + ndebug, tag="rtj")
-    nschema = 32 if ctx.quick() else 400
+    # with mutants (C04) every schema carries ~5000 parse lines of a few KB each: 120 schemas keep the thorough tier within a few GB of memory
+    nschema = 32 if ctx.quick() else (120 if mutate else 400)
     ncase = 10 if ctx.quick() else 16
     jobs = [(ctx.work, flatcc, rt, ctx.seed, si, ncase, mutate) for si in range(nschema)]
     with ThreadPoolExecutor(16) as ex:
@@ -180,6 +278,9 @@ def run(ctx, mutate=None, judge_extra=None):
         return ths, results
     bad_schema = [r for r in results if "error" in r]
     bad = [b for r in results if "lines" in r for b in judge_rt(r)]
+    fstats, fbad = flags_stage(ctx, flatcc, rt)
+    bad += fbad
+    b64cov.update(fstats)
     nlines = sum(len(r.get("lines", [])) for r in results)
     if bad_schema:
         b = bad_schema[0]
